@@ -6,7 +6,7 @@ cd /verif
 git -C /repo diff --quiet || { echo "/repo dirty"; exit 2; }
 git -C /repo apply /verif/seeded/$id/patch.diff || { echo "patch does not apply"; exit 2; }
 for p in "$@"; do
-  out=$(VERIF_BUDGET_S=${VERIF_BUDGET_S:-12} ./check $p quick 2>&1); rc=$?
+  out=$(VERIF_EVIDENCE_DIR=/tmp/seed-evidence VERIF_BUDGET_S=${VERIF_BUDGET_S:-12} ./check $p quick 2>&1); rc=$?
   echo "$id $p exit=$rc $(echo "$out" | grep -m2 -E "^VIOLATION|^HARNESS|^BUILD" | cut -c1-260 | tr '\n' ' ')"
 done
 git -C /repo checkout -- .
